@@ -16,8 +16,8 @@ def nextLineNotBlank (D : List Dialect) (T : Table) (stop : Bool) (μ : MState) 
     | l :: _ => !lineIsEmpty l
   | none => false
 
-/-- the TRUE hypotheses of the comment-line property (conjectured, see Props/C16Doc6.lean; proved for
-    the part `commentLineOk2B`): `c` is a `#` line that is not read as a language header where it is
+/-- the hypotheses of the comment-line property (`C16_comment_line_text3`, Props/C16Doc6.lean — proved):
+    `c` is a `#` line that is not read as a language header where it is
     inserted; the original run has aborted within the first `k` lines, or stands in a state whose
     comment test builds and stays, or stands in a state whose comment test opens the description and
     line `k+1` does not exist or is not blank -/
